@@ -66,7 +66,11 @@ def tied_case(ctx, case, rng):
   if not ok:
     return {'outcome': 'skipped', 'reason': 'generator_reject'}
   src = models.read(spec.content)
-  pool = ['drq8_cw', 'drq8_tw', 'wo8a_cw', 'wo8s_tw', 'wo4s_cw', 'fp16', 'noq', None]
+  pool = ['drq8_cw', 'drq8_tw', 'wo8a_cw', 'wo8s_tw', 'wo8s_cw', 'wo4s_cw', 'fp16', 'noq', None]
+  if rng.random() < 0.4:
+    # the same stored weights read in different compute modes (dynamic-range by one consumer, weight-only by another)
+    pool = recipes.SAME_WEIGHT_FAMILIES[int(rng.integers(len(recipes.SAME_WEIGHT_FAMILIES)))]
+    ctx.count('tied_same_weights_mixed_modes')
   rules = [(re.escape(out), sel, str(c)) for (sel, out), c in zip(consumers, [pool[int(rng.integers(len(pool)))] for _ in consumers]) if c is not None]
   if not rules:
     return {'outcome': 'skipped', 'reason': 'no_rule'}
